@@ -161,6 +161,10 @@ def bounded(ctx, b):
         CaptionSet({"en-US": CaptionList([Caption((2 * j + 1) * US, (2 * j + 2) * US, [T(t)]) for j, t in enumerate(
             ["Press A --> B to continue", "-->", "a --> b --> c", "write &lt; for less", "&amp;lt; twice", "R&D <dept>", "<v Bob> said",
              "{sighs} I know.", "it's \"q\"", "&#XE9; &#1114112;", "x < y > z & w"])])}),
+        # characters a filter for "unprintable" characters would wrongly take away: zero-width joiner / non-joiner, soft hyphen,
+        # left-to-right mark, word joiner (emoji sequences, Persian, bidirectional text)
+        CaptionSet({"en-US": CaptionList([Caption((2 * j + 1) * US, (2 * j + 2) * US, [T(t)]) for j, t in enumerate(
+            ["family \U0001f468\u200d\U0001f469\u200d\U0001f467 emoji", "\u0645\u06cc\u200c\u062e\u0648\u0627\u0647\u0645", "co\u00adoperate", "abc \u200e(x)\u200f def", "no\u2060break"])])}),
         # every pair of metacharacters next to each other, inside a sentence (";>" , "&;", "<;", ...)
         CaptionSet({"en-US": CaptionList([Caption((2 * j + 1) * US, (2 * j + 2) * US, [T(f"He winked {x}{y} and left {y}{x}{y}")])
                                           for j, (x, y) in enumerate(itertools.product("&<>;#'-", repeat=2))])}),
